@@ -528,6 +528,130 @@ theorem inner_loop (i : Nat) : ∀ (rest done : List (List K)) (v : populations_
     simp only [hvi] at hr
     rw [hr]
     simp [List.append_assoc]
+theorem out_set (doneP : List (List (List K))) (pop : List (List K)) (n : Nat) :
+    (doneP.map (blockOf T F) ++ List.replicate (n + 1) (List.replicate T (List.replicate F (0 : K)))).set doneP.length (blockOf T F pop)
+      = (doneP ++ [pop]).map (blockOf T F) ++ List.replicate n (List.replicate T (List.replicate F (0 : K))) := by
+  rw [List.set_append_right _ _ (by simp)]
+  simp [List.replicate_succ]
+
+theorem outer_loop : ∀ (restP doneP : List (List (List K))) (v : populations_get_impl.V K),
+    v.out = doneP.map (blockOf T F) ++ List.replicate restP.length (List.replicate T (List.replicate F (0 : K))) →
+    (∀ pop ∈ restP, pop.length ≤ T ∧ ∀ vv ∈ pop, vv.length ≤ F) →
+    ∃ i' j' w' vv', Py.forEach populations_get_impl.for6 (Py.enumFrom (doneP.length : Int) restP) v =
+      .next { v with i := i', j := j', v := w', vv := vv', out := (doneP ++ restP).map (blockOf T F) } := by
+  intro restP
+  induction restP with
+  | nil =>
+    intro doneP v ho _
+    have ho' : v.out = doneP.map (blockOf T F) := by simpa using ho
+    exact ⟨v.i, v.j, v.v, v.vv, by simp [Py.enumFrom, Py.forEach, ← ho']⟩
+  | cons pop rest ih =>
+    intro doneP v ho hb
+    obtain ⟨hpT, hpF⟩ := hb pop List.mem_cons_self
+    have hlen : doneP.length < v.out.length := by rw [ho]; simp
+    have hget : v.out[doneP.length]? = some (([] : List (List K)).map (padF F) ++
+        List.replicate (T - ([] : List (List K)).length) (List.replicate F (0 : K))) := by
+      rw [ho, List.getElem?_append_right (by simp)]
+      simp [List.replicate_succ]
+    obtain ⟨j', vv', hin⟩ := inner_loop T F doneP.length pop [] { v with i := (doneP.length : Int), v := pop } rfl hlen hget
+      (by simpa using hpT) hpF
+    have hset : v.out.set doneP.length (blockOf T F pop)
+        = (doneP ++ [pop]).map (blockOf T F) ++ List.replicate rest.length (List.replicate T (List.replicate F (0 : K))) := by
+      rw [ho]; exact out_set T F doneP pop rest.length
+    obtain ⟨i2, j2, w2, vv2, hr⟩ := ih (doneP ++ [pop])
+      { v with i := (doneP.length : Int), v := pop, j := j', vv := vv', out := v.out.set doneP.length (blockOf T F pop) } hset
+      (fun p hp => hb p (List.mem_cons_of_mem _ hp))
+    refine ⟨i2, j2, w2, vv2, ?_⟩
+    have e : ((doneP ++ [pop]).length : Int) = (doneP.length : Int) + 1 := by simp
+    rw [e] at hr
+    dsimp only at hr
+    simp only [List.length_nil, List.nil_append] at hin
+    rw [show (((0 : Nat) : Int)) = (0 : Int) from rfl] at hin
+    simp only [Py.enumFrom, Py.forEach, populations_get_impl.for6, Py.enumerate]
+    rw [hin]
+    dsimp only
+    rw [hr]
+    simp [List.append_assoc]
 end populations
+
+theorem pops_loop1 : ∀ (xs : List (List (List K))) (v : populations_get_impl.V K),
+    ∃ w, Py.forEach populations_get_impl.for1 xs v = .next { v with v := w, c0_ := v.c0_ ++ xs.map fun x => (x.length : Int) } := by
+  intro xs
+  induction xs with
+  | nil => intro v; exact ⟨v.v, by simp [Py.forEach]⟩
+  | cons x xs ih =>
+    intro v
+    obtain ⟨w, hw⟩ := ih { v with v := x, c0_ := v.c0_ ++ [(x.length : Int)] }
+    exact ⟨w, by simp only [Py.forEach, populations_get_impl.for1, Py.len]; rw [hw]; simp⟩
+
+theorem pops_loop3 : ∀ (xs : List (List K)) (v : populations_get_impl.V K),
+    ∃ w, Py.forEach populations_get_impl.for3 xs v = .next { v with vv := w, c4_ := v.c4_ ++ xs.map fun x => (x.length : Int) } := by
+  intro xs
+  induction xs with
+  | nil => intro v; exact ⟨v.vv, by simp [Py.forEach]⟩
+  | cons x xs ih =>
+    intro v
+    obtain ⟨w, hw⟩ := ih { v with vv := x, c4_ := v.c4_ ++ [(x.length : Int)] }
+    exact ⟨w, by simp only [Py.forEach, populations_get_impl.for3, Py.len]; rw [hw]; simp⟩
+
+theorem pops_loop4 : ∀ (xs : List (List (List K))) (v : populations_get_impl.V K),
+    ∃ w vv' c4', Py.forEach populations_get_impl.for4 xs v =
+      .next { v with v := w, vv := vv', c4_ := c4', c3_ := v.c3_ ++ xs.map fun x => x.map fun y => (y.length : Int) } := by
+  intro xs
+  induction xs with
+  | nil => intro v; exact ⟨v.v, v.vv, v.c4_, by simp [Py.forEach]⟩
+  | cons x xs ih =>
+    intro v
+    obtain ⟨w3, h3⟩ := pops_loop3 x { v with v := x, c4_ := [] }
+    dsimp only at h3
+    obtain ⟨w, vv', c4', hw⟩ := ih ⟨v.vals, v.len_max1, v.len_max2, v.out, v.i, v.j, x, w3, v.c0_,
+      v.c3_ ++ [x.map fun y => (y.length : Int)], x.map (fun y => (y.length : Int))⟩
+    dsimp only at hw
+    refine ⟨w, vv', c4', ?_⟩
+    simp only [Py.forEach, populations_get_impl.for4, Py.seq, Py.bindS, h3, List.nil_append]
+    rw [hw]; simp
+
+/-- **`PopulationsFeatureExtractor._get_impl` as translated**: for EVERY collection of populations with at least one tree in total (populations
+of any sizes, empty ones included; value vectors of any lengths, empty ones included) nothing raises — this is where `max(*xs)` with a single
+tree raised (D31) — and the answer has one block per population, every block with as many rows as the largest population: the trees' vectors
+followed by zeros up to the longest vector of the whole collection, then zero rows.  With no tree at all it raises (`max()` of nothing). -/
+theorem populations_refines (vals : List (List (List K))) :
+    populations_get_impl vals =
+      if vals.flatten = [] then none else some (vals.map (blockOf (maxLen vals) (maxLen vals.flatten))) := by
+  obtain ⟨w1, h1⟩ := pops_loop1 vals ⟨vals, (default : populations_get_impl.V K).len_max1, (default : populations_get_impl.V K).len_max2, (default : populations_get_impl.V K).out, (default : populations_get_impl.V K).i, (default : populations_get_impl.V K).j, (default : populations_get_impl.V K).v, (default : populations_get_impl.V K).vv, [], (default : populations_get_impl.V K).c3_, (default : populations_get_impl.V K).c4_⟩
+  by_cases hv : vals = []
+  · subst hv
+    simp [populations_get_impl, populations_get_impl.body, Py.seq, Py.bindS, Py.forEach, Py.Sh.maxInts, Py.bind, Py.finish]
+  · have hm1 := maxInts_lens vals hv
+    dsimp only at h1
+    obtain ⟨w4, vv4, c44, h4⟩ := pops_loop4 vals ⟨vals, ((maxLen vals : Nat) : Int), (default : populations_get_impl.V K).len_max2, (default : populations_get_impl.V K).out, (default : populations_get_impl.V K).i, (default : populations_get_impl.V K).j, w1, (default : populations_get_impl.V K).vv,
+      vals.map (fun x => (x.length : Int)), [], (default : populations_get_impl.V K).c4_⟩
+    dsimp only at h4
+    simp only [List.nil_append] at h1 h4
+    have hfl : (vals.map fun x => x.map fun y => (y.length : Int)).flatten = vals.flatten.map fun y => (y.length : Int) := by
+      rw [List.map_flatten]
+    by_cases hf : vals.flatten = []
+    · rw [if_pos hf]
+      have hnone : Py.Sh.maxInts ([] : List Int) = none := rfl
+      simp only [populations_get_impl, populations_get_impl.body, Py.seq, Py.bindS, h1, List.nil_append, hm1, Py.bind, h4, hfl, hf,
+        List.map_nil, hnone, Py.finish, Option.map_none]
+    · rw [if_neg hf]
+      have hm2 := maxInts_lens vals.flatten hf
+      have hz : Py.Sh.zeros3 (K := K) (Py.len vals) ((maxLen vals : Nat) : Int) ((maxLen vals.flatten : Nat) : Int)
+          = some (List.replicate vals.length (List.replicate (maxLen vals) (List.replicate (maxLen vals.flatten) (0 : K)))) := by
+        unfold Py.Sh.zeros3
+        split
+        · next h => exfalso; simp only [Py.len] at h; omega
+        · simp [Py.len]
+      obtain ⟨i', j', w', vv', h6⟩ := outer_loop (maxLen vals) (maxLen vals.flatten) vals []
+        ⟨vals, ((maxLen vals : Nat) : Int), ((maxLen vals.flatten : Nat) : Int),
+          List.replicate vals.length (List.replicate (maxLen vals) (List.replicate (maxLen vals.flatten) (0 : K))),
+          (default : populations_get_impl.V K).i, (default : populations_get_impl.V K).j, w4, vv4, vals.map (fun x => (x.length : Int)), vals.map (fun x => x.map fun y => (y.length : Int)), c44⟩
+        (by simp)
+        (fun pop hp => ⟨maxLen_ge vals pop hp, fun vv hvv => maxLen_ge vals.flatten vv (List.mem_flatten.2 ⟨pop, hp, hvv⟩)⟩)
+      simp only [List.length_nil, List.nil_append] at h6
+      rw [show (((0 : Nat) : Int)) = (0 : Int) from rfl] at h6
+      simp only [populations_get_impl, populations_get_impl.body, Py.seq, Py.bindS, h1, List.nil_append, hm1, Py.bind, h4, hfl, hm2, hz,
+        Py.enumerate, h6, Py.finish, Option.map_some]
 
 end RefineSholl
